@@ -28,13 +28,19 @@ func init() {
 				"request-specific adjustment (AD bit, ECS echo) and after hop-by-hop data is removed, and re-applies those " +
 				"adjustments on the hit path.",
 			NotCovered: "the rounding amount of the served TTL, LRU eviction, that the cache library honours the expiry (trusted).",
-			Rules: map[string]string{"C04-R15": "ecscache ServeDNS: the upstream request carries the subnet the cache is keyed by (table shared with C05-R1)", "C04-R14": "TTL stores on records that may come from an additional section are guarded by a not-OPT test (the OPT TTL field is extended rcode / version / DO)", "C04-RC": "class rules (error chains, shadowed results, character classes, crossed arguments, pool constructors, array pools, loop completeness, loop-carried buffers, replacing setters, complete clones, Grow arithmetic, pooled-buffer escape, sorted searches, fresh decode targets, per-iteration objects, whole-message copies, codec guards) over the packages this property rests on", "C04-R13": "setECS leaves exactly one subnet option, in requests and responses alike (table shared with C05-R4)", "C04-R12": "cache wrappers (agdcache, ecscache, dnsserver/cache) use every parameter: key, value and expiration reach the wrapped cache", "C04-R1": "served TTL aged on every path", "C04-R2": "cache key completeness", "C04-R3": "cacheability and store tables",
+			Rules: map[string]string{"C04-R16": "the main middleware disposes of the original response only when a different one was written (a response that is written, cached and disposed twice aliases pooled records; shared with C07-R3)", "C04-R17": "the initial middleware sets AD unconditionally in the request handed to the pipeline, so cached answers carry the upstream's AD for every requester (table shared with C01-R21)", "C04-R15": "ecscache ServeDNS: the upstream request carries the subnet the cache is keyed by (table shared with C05-R1)", "C04-R14": "TTL stores on records that may come from an additional section are guarded by a not-OPT test (the OPT TTL field is extended rcode / version / DO)", "C04-RC": "class rules (error chains, shadowed results, character classes, crossed arguments, pool constructors, array pools, loop completeness, loop-carried buffers, replacing setters, complete clones, Grow arithmetic, pooled-buffer escape, sorted searches, fresh decode targets, per-iteration objects, whole-message copies, codec guards) over the packages this property rests on", "C04-R13": "setECS leaves exactly one subnet option, in requests and responses alike (table shared with C05-R4)", "C04-R12": "cache wrappers (agdcache, ecscache, dnsserver/cache) use every parameter: key, value and expiration reach the wrapped cache", "C04-R1": "served TTL aged on every path", "C04-R2": "cache key completeness", "C04-R3": "cacheability and store tables",
 				"C04-R4": "lowest-TTL helper table", "C04-R5": "hit-path coverage and store ordering", "C04-R6": "cached items are private deep copies"},
 		}})
 }
 
 func runC04(c *an.Ctx) {
 	classSweep(c, "C04")
+	// ---- R16: the original response is handed back to the pools only when another one was written (shared with C07-R3);
+	// R17: the pipeline always sees AD set, so a cached answer's AD bit does not depend on who asked first (shared with C01-R21)
+	c.Floor("C04-R16", 1)
+	c.Borrow("C04-R16", runC07, func(o an.Obligation) bool { return o.Rule == "C07-R3" && strings.Contains(o.Key, "mainmw") })
+	c.Floor("C04-R17", 1)
+	c.Borrow("C04-R17", runC01, func(o an.Obligation) bool { return o.Rule == "C01-R21" })
 	dnssvcWiring(c, "C04-R11", func(dst, src string) bool {
 		n := normName(dst) + " " + normName(src)
 		return strings.Contains(n, "count") || strings.Contains(n, "ttl")
